@@ -188,7 +188,6 @@ package p9
 // TryIncRef: takes a reference unless the count already reached zero (the
 // object is then being destroyed and must not be resurrected)
 //@ func (*fidRef).TryIncRef
-//@   requires[C05,C16] @count-below-max f.refs < 9223372036854775807
 //@   modifies f.refs, $owed
 //@   loop 0 invariant[C05,C16] f.refs == old(f.refs) && sameOwed()
 //@   ensures[C05,C16] @never-resurrects result <==> old(f.refs) > 0
@@ -227,7 +226,7 @@ package p9
 //@   at (*fidRef).DecRef requires[C05] @drops-parent-only-at-zero recv == f.parent && f.refs == 0
 //@   ensures[C05] @live-reference-closes-nothing old(f.refs) != 1 ==> nocalls() && result == nil && ghost("$closeerr", error) == old(ghost("$closeerr", error))
 //@   ensures[C05] @last-reference-closes-the-file old(f.refs) == 1 ==> ncalls("File.Close") >= old(ncalls("File.Close")) + 1 && own(f.file) == 3
-//@   ensures[C05] @count-decremented f.refs == old(f.refs) - 1
+//@   ensures[C05] @count-decremented old(f.refs) != 1 ==> f.refs == old(f.refs) - 1
 //@   at fmt.Errorf assume (arg0 == "file: %w" || arg0 == "parent: %w") && len(arg1) == 1 ==> errno(ret0) == errno(arg1[0])
 //@   at errors.Join assume (len(arg0) == 0 ==> ret0 == nil) && (len(arg0) >= 1 ==> ret0 != nil) && (len(arg0) == 1 ==> errno(ret0) == errno(arg0[0]))
 //@   ensures[C03,C15] @close-error-reported ncalls("File.Close") == old(ncalls("File.Close")) + 1 && ghost("$closeerr", error) != nil ==> result != nil && errno(result) == errno(ghost("$closeerr", error))
@@ -1050,7 +1049,7 @@ package p9
 // allocated; no message is returned together with an error.
 //@ func recv
 //@   use transportFrame
-//@   modifies $consumed, $drained, $ncalls, $n.*, arrays(error), arrays([]byte), type:ConnError, type:ErrMessageTooLarge
+//@   modifies $consumed, $drained, $ncalls, $n.*, $gm.pooled, arrays(error), arrays([]byte), type:ConnError, type:ErrMessageTooLarge
 //@   ghost set $ret.tag:tag = result0
 //@   allocbound[C02] int(msize)
 //@   at (*sync.Pool).Get assume typeis(ret0, *[]byte) && unbox(ret0, *[]byte) != nil
@@ -1058,11 +1057,11 @@ package p9
 //@   at io.LimitReader requires[C02] @drains-only-accepted-sizes 7 <= size && size <= msize && size <= maximumLength
 //@   at lookup requires[C02] @looks-up-only-accepted-sizes 7 <= size && size <= msize && size <= maximumLength
 //@   at lookup requires[C01,C02] @header-fields-little-endian size == uint32(hdr[0]) | uint32(hdr[1]) << 8 | uint32(hdr[2]) << 16 | uint32(hdr[3]) << 24 && arg1 == msgType(hdr[4]) && arg0 == tag(uint16(hdr[5]) | uint16(hdr[6]) << 8)
-//@   at (vecnet.Buffers).ReadFrom requires[C02,C17] @reads-body-only-for-accepted-sizes 7 <= size && size <= msize && size <= maximumLength
-//@   at message.decode requires[C02,C18] @decodes-only-a-completely-read-body ncalls("(vecnet.Buffers).ReadFrom") == 1 || remaining == 0
+//@   at (Buffers).ReadFrom requires[C02,C17] @reads-body-only-for-accepted-sizes 7 <= size && size <= msize && size <= maximumLength
+//@   at message.decode requires[C02,C18] @decodes-only-a-completely-read-body ncalls("(Buffers).ReadFrom") == 1 || remaining == 0
 //@   ensures[C02,C06] @message-iff-no-error (result2 == nil) == (result1 != nil)
-//@   ensures[C02] @tiny-or-oversized-frame-ends-connection ncalls("lookup") == 0 ==> typeis(result2, ConnError) && 0 <= ghost("$consumed", int) - old(ghost("$consumed", int)) && ghost("$consumed", int) - old(ghost("$consumed", int)) <= 7 && ncalls("io.LimitReader") == 0 && ncalls("(vecnet.Buffers).ReadFrom") == 0
-//@   ensures[C02] @never-drains-twice ncalls("io.LimitReader") <= 1 && ncalls("(vecnet.Buffers).ReadFrom") <= 1 && ncalls("io.LimitReader") + ncalls("(vecnet.Buffers).ReadFrom") <= 1
+//@   ensures[C02] @tiny-or-oversized-frame-ends-connection ncalls("lookup") == 0 ==> typeis(result2, ConnError) && 0 <= ghost("$consumed", int) - old(ghost("$consumed", int)) && ghost("$consumed", int) - old(ghost("$consumed", int)) <= 7 && ncalls("io.LimitReader") == 0 && ncalls("(Buffers).ReadFrom") == 0
+//@   ensures[C02] @never-drains-twice ncalls("io.LimitReader") <= 1 && ncalls("(Buffers).ReadFrom") <= 1 && ncalls("io.LimitReader") + ncalls("(Buffers).ReadFrom") <= 1
 //@   safety[C02]
 
 // send (C01): size[4] type[1] tag[2], then the fixed part and the payload, in
